@@ -365,6 +365,8 @@ func C05(run *Run) {
 			run.AddSample(map[string]any{"model": cs.Model.String(), "tuples": tupleStrings(cs.Tuples), "last_event": rec.Events[len(rec.Events)-1]})
 		}
 	}
+	// intersections / unions of three and four operands of different sizes (the generator's are binary)
+	runNary(ctx, v, rec, run, r, run.Pick(40, 400), []string{"classic", "weighted", "pipeline", "pipeline:c1:q1:p1"})
 	sum := rec.Validate(run, 16)
 	run.Coverage["rule"] = "C01 input space; ListObjects and StreamedListObjects for random (type, relation, subject∈{object, wildcard, userset}, context) on the classic, weighted-graph and pipeline engines, max-results 1/2/default and pipeline chunk/buffer/numProcs knobs; judged by TLC: returned ⊆ {o : Chk=T}, no duplicates, equality when no limit applies, exactly k when limit k ≤ |permitted|; non-trivial = relation is not a bare direct assignment or subject is a userset/wildcard"
 	run.Coverage["cases"] = nCases
